@@ -1,5 +1,114 @@
+// samplerz.rs hook: Kani harnesses for the integer building blocks of the sampler (C09) and native replay entry points.
 #![allow(dead_code, unused_imports)]
+use super::*;
+
 #[cfg(not(kani))]
-pub(crate) fn dispatch(_a: &[String]) -> Option<String> {
-    None
+struct BufRng {
+    buf: Vec<u8>,
+    pos: usize,
+    pub exhausted: bool,
+}
+#[cfg(not(kani))]
+impl rand::RngCore for BufRng {
+    fn next_u32(&mut self) -> u32 {
+        let mut b = [0u8; 4];
+        self.fill_bytes(&mut b);
+        u32::from_le_bytes(b)
+    }
+    fn next_u64(&mut self) -> u64 {
+        let mut b = [0u8; 8];
+        self.fill_bytes(&mut b);
+        u64::from_le_bytes(b)
+    }
+    fn fill_bytes(&mut self, dest: &mut [u8]) {
+        for d in dest.iter_mut() {
+            if self.pos < self.buf.len() {
+                *d = self.buf[self.pos];
+                self.pos += 1;
+            } else {
+                self.exhausted = true;
+                *d = 0;
+            }
+        }
+    }
+    fn try_fill_bytes(&mut self, dest: &mut [u8]) -> Result<(), rand::Error> {
+        self.fill_bytes(dest);
+        Ok(())
+    }
+}
+
+#[cfg(not(kani))]
+pub(crate) fn dispatch(a: &[String]) -> Option<String> {
+    let f = |s: &str| f64::from_bits(u64::from_str_radix(s, 16).unwrap());
+    let bytes = |s: &str| -> Vec<u8> { if s == "-" { vec![] } else { hex::decode(s).unwrap() } };
+    match a[0].as_str() {
+        // floats are passed as 16 hex digits of their IEEE bits
+        "base_sampler" => {
+            let b: [u8; 9] = bytes(&a[1]).try_into().unwrap();
+            Some(base_sampler(b).to_string())
+        }
+        "approx_exp" => Some(approx_exp(f(&a[1]), f(&a[2])).to_string()),
+        "ber_exp" => {
+            let b: [u8; 7] = bytes(&a[3]).try_into().unwrap();
+            Some(ber_exp(f(&a[1]), f(&a[2]), b).to_string())
+        }
+        "sampler_z" => {
+            let mut rng = BufRng { buf: bytes(&a[4]), pos: 0, exhausted: false };
+            let z = sampler_z(f(&a[1]), f(&a[2]), f(&a[3]), &mut rng);
+            Some(format!("{} consumed={} exhausted={}", z, rng.pos, rng.exhausted))
+        }
+        _ => None,
+    }
+}
+
+#[cfg(kani)]
+mod harnesses {
+    use super::*;
+
+    // RCDT of the specification (Table 3.1), written out here - not taken from the crate
+    const RCDT_SPEC: [u128; 18] = [
+        3024686241123004913666, 1564742784480091954050, 636254429462080897535, 199560484645026482916,
+        47667343854657281903, 8595902006365044063, 1163297957344668388, 117656387352093658,
+        8867391802663976, 496969357462633, 20680885154299, 638331848991, 14602316184, 247426747,
+        3104126, 28824, 198, 1,
+    ];
+
+    /// base_sampler(u) = #{i : u < RCDT[i]} for all 2^72 inputs
+    #[kani::proof]
+    #[kani::unwind(20)]
+    fn c09_base_sampler() {
+        let bytes: [u8; 9] = kani::any();
+        let mut u: u128 = 0;
+        let mut i = 0;
+        while i < 9 {
+            u = (u << 8) | bytes[i] as u128;
+            i += 1;
+        }
+        let mut z0 = 0i16;
+        let mut k = 0;
+        while k < 18 {
+            if u < RCDT_SPEC[k] {
+                z0 += 1;
+            }
+            k += 1;
+        }
+        kani::cover!(u == 0, "all 18 reachable");
+        kani::cover!(u >= RCDT_SPEC[0], "0 reachable");
+        let r = base_sampler(bytes);
+        assert!(r == z0);
+        assert!(r >= 0 && r <= 18);
+    }
+
+    /// ber_exp is total on its documented domain: x >= 0 (x < 2^10 here), ccs in [1/2, 1], every 7-byte string
+    #[kani::proof]
+    #[kani::unwind(14)]
+    fn c09_ber_exp_total() {
+        let x: f64 = kani::any();
+        let ccs: f64 = kani::any();
+        kani::assume(x >= 0.0 && x < 1024.0);
+        kani::assume(ccs >= 0.5 && ccs <= 1.0);
+        let bytes: [u8; 7] = kani::any();
+        kani::cover!(x > 50.0, "large x reachable");
+        let _ = ber_exp(x, ccs, bytes);
+    }
 }
